@@ -105,6 +105,27 @@ def id_keyed_case(case):
         for key in ("variant", "packagedir", "repository", "family", "version", "name", "arch", "platforms", "timestamp"):
             check(g.get(key) == want.get(key), "general-differs-from-reference", lambda: "top-level variants held under their ids, main_variant=%r: [general] %s = %r, reference says %r" % (
                 main, key, g.get(key), want.get(key)))
+    # the same trees asked for their main variant by UID, written, and written again after that variant was REPLACED by another
+    # object of the same UID with other paths (del + add, the way a caller corrects a variant)
+    import productmd.treeinfo as t
+    dashed = [n for n in desc["variants"] if n["id"] != n["uid"]]
+    node = dashed[len(ids) % len(dashed)]
+    for act in (0, 1):
+        text = must("dump-valid-tree", tim.dump_text, obj, node["uid"])
+        g = must("stdlib-read", tim.read_ini, text).get("general", {})
+        want = dict(tim.expected_general(desc, node["id"]), variant=node["uid"])
+        for key in ("variant", "packagedir", "repository"):
+            check(g.get(key) == want.get(key), "general-differs-from-reference", lambda: "top-level variants held under their ids, main variant requested by its UID %r%s: [general] %s = %r, reference says %r" % (
+                node["uid"], " (after that variant was replaced by a new object)" if act else "", key, g.get(key), want.get(key)))
+        if act == 0:
+            del obj.variants.variants[node["id"]]
+            node = dict(node, paths=dict(node["paths"], packages="replaced/Packages", repository="replaced/repo"), children=[])
+            desc = dict(desc, variants=[node if n["uid"] == node["uid"] else n for n in desc["variants"]])
+            v = t.Variant(obj)
+            v.id, v.uid, v.name, v.type = node["id"], node["uid"], node["name"], node["type"]
+            for k, val in node["paths"].items():
+                setattr(v.paths, k, val)
+            must("add-replacement", obj.variants.add, v)
     return {"nontrivial": True, "labels": ["id-keyed-dashed-top-level"]}
 
 
